@@ -305,6 +305,7 @@ func (p *Path) Call(fn *ssa.Function, args []Value, deferredBy *frame, env []Val
 	if len(fn.Blocks) == 0 {
 		p.unsupported("call of function without body: %s", fn)
 	}
+	p.fnSeen[fn]++
 	p.depth++
 	if p.depth > 200 {
 		panic(engineErr{"call depth exceeded in " + fn.String()})
